@@ -278,7 +278,7 @@ impl PropImpl for C18 {
          Payloads come from each type's canonical value domain (unambiguous by the format's own rules). Non-trivial: record / payload-carrying values. Distinct by value hash.".into()
     }
     fn budget(&self, tier: Tier) -> Budget {
-        Budget { cases_per_lane: if tier == Tier::Quick { 15000 } else { 100_000 }, tape_max: 200, cpu_s: 10 }
+        Budget { cases_per_lane: if tier == Tier::Quick { 45000 } else { 200000 }, tape_max: 200, cpu_s: 10 }
     }
     fn spaces(&self, _tier: Tier) -> Vec<Space> {
         let n: usize = KEYWORDS.iter().map(|k| k.1.len()).sum();
@@ -346,12 +346,17 @@ impl PropImpl for C18 {
                 }
             }
             7 => {
-                let s = line(t);
+                // keywords are matched exactly: a reference that differs from one only in letter case is a reference
+                let s = if t.chance(1, 5) { t.pick(&["No", "NO", "nO", "Not-Needed", "NOT-NEEDED", "not-Needed", "Yes", "yes", "YES"]).to_string() } else { line(t) };
                 Case::ForwardedYes(if s == "no" || s == "not-needed" { format!("{}x", s) } else { s })
             }
             8 => {
                 let commit = t.flag();
                 let mut payload = line(t);
+                if !commit && t.chance(1, 5) {
+                    // prefixes are matched exactly: other letter case makes it an ordinary description
+                    payload = t.pick(&["Commit:abc123", "COMMIT:abc", "Upstream, x", "BACKPORT, y z", "Vendor", "Other, z", "commit :a"]).to_string();
+                }
                 if !commit {
                     // canonical domain: an "other" origin neither looks like a commit nor starts with a category prefix
                     if payload.starts_with("commit:") {
@@ -368,6 +373,9 @@ impl PropImpl for C18 {
             9 => {
                 let commit = t.flag();
                 let mut payload = line(t);
+                if !commit && t.chance(1, 5) {
+                    payload = t.pick(&["Commit:abc123", "COMMIT:1", "commit :a", "Commit"]).to_string();
+                }
                 if !commit && payload.starts_with("commit:") {
                     payload = format!("x{}", payload);
                 }
@@ -418,6 +426,8 @@ impl PropImpl for C18 {
         ctx.label(label);
         match case {
             Case::Checksum(_, h, _, _) => ctx.label_if(h.chars().all(|c| c.is_ascii_hexdigit()) && h.chars().any(|c| c.is_ascii_uppercase()), "checksum:upper-case-hex-digest"),
+            Case::ForwardedYes(p) => ctx.label_if(["no", "not-needed", "yes"].contains(&p.to_lowercase().as_str()), "forwarded-yes:reference-is-a-keyword-in-other-letter-case"),
+            Case::Origin { commit: false, payload, .. } | Case::AppliedUpstream { commit: false, payload } => ctx.label_if(payload.to_lowercase().starts_with("commit") || ["upstream", "backport", "vendor", "other"].iter().any(|c| payload.to_lowercase().starts_with(c)), "dep3:description-resembles-a-prefix-in-other-letter-case"),
             Case::License { text, name, .. } => {
                 ctx.label_if(text.is_empty(), "license:empty-text");
                 ctx.label_if(name.is_empty(), "license:empty-name");
@@ -428,7 +438,7 @@ impl PropImpl for C18 {
     }
     fn expected_labels(&self) -> Vec<&'static str> {
         vec!["keyword", "rejection", "checksum", "checksum:upper-case-hex-digest", "package-list", "package-list-with-extras", "changes-file", "build-profile", "vcs:plain", "vcs:branch", "vcs:subpath", "vcs:branch+subpath",
-            "Vcs::Git", "Vcs::Bzr", "Vcs::Hg", "Vcs::Svn", "Vcs::Cvs", "forwarded-yes", "origin-with-category", "origin", "applied-upstream", "license:name", "license:text", "license:named", "license:empty-text", "license:empty-name",
+            "Vcs::Git", "Vcs::Bzr", "Vcs::Hg", "Vcs::Svn", "Vcs::Cvs", "forwarded-yes", "origin-with-category", "origin", "applied-upstream", "license:name", "license:text", "license:named", "license:empty-text", "license:empty-name", "forwarded-yes:reference-is-a-keyword-in-other-letter-case", "dep3:description-resembles-a-prefix-in-other-letter-case",
             "signature:key-path", "signature:key-block-multi-line", "signature:key-block-single-line"]
     }
     fn check(&self, _ctx: &mut Ctx, case: &Case) -> CheckResult {
